@@ -101,7 +101,7 @@ func genCase(bin string, cfg *checkCfg, seed uint64, tier string, run int, env [
 func engineEnv(cfg *checkCfg) []string {
 	var env []string
 	if cfg.Race {
-		env = append(env, "GORACE=halt_on_error=1 history_size=7", "GODEBUG=asyncpreemptoff=1")
+		env = append(env, "GORACE=halt_on_error=1 history_size=7", "GODEBUG=asyncpreemptoff=1", "GOMAXPROCS=1")
 	}
 	return env
 }
@@ -119,6 +119,11 @@ func runCheck(cfg *checkCfg, tier string, seed uint64, runsOverride int, writeEv
 	timeout := time.Duration(cfg.RunTimeoutS) * time.Second
 	if timeout == 0 {
 		timeout = 10 * time.Minute
+	}
+	var window uint64
+	if cfg.Race {
+		window = calibrateRaceWindow(bin, env)
+		env = append(env, fmt.Sprintf("VERIF_WINDOW_TICKS=%d", window))
 	}
 
 	exit := 0
@@ -167,7 +172,21 @@ func runCheck(cfg *checkCfg, tier string, seed uint64, runsOverride int, writeEv
 		replayDir: replayDir, env: env, maxViol: maxViolations()})
 
 	// 3. runs that killed or stalled their worker: reproduce alone, twice, in fresh processes
+	// (at most two candidates per failure class are reproduced and minimised: a tree with a
+	// real race kills almost every worker the same way)
+	perClass := map[string]int{}
+	confirmed := map[string]bool{}
 	for _, s := range agg.suspects {
+		key, _ := fatalClass(s.stderr)
+		if s.kind == "timeout" {
+			key = "hang@run"
+		}
+		if confirmed[key] || perClass[key] >= 2 {
+			agg.counters["suspects_not_reexecuted_same_class"]++
+			continue
+		}
+		perClass[key]++
+		nViol := len(agg.violations)
 		c, err := genCase(bin, cfg, seed, tier, s.run, env)
 		if err != nil {
 			agg.errors = append(agg.errors, fmt.Sprintf("run %d %s and its case cannot be regenerated: %v", s.run, s.kind, err))
@@ -200,7 +219,15 @@ func runCheck(cfg *checkCfg, tier string, seed uint64, runsOverride int, writeEv
 			} else {
 				agg.violations = append(agg.violations, violation{Run: s.run, Seed: rp.Seed, Class: "hang@reused-object-only", Detail: "the run completes when only fresh objects are used, and hangs with the reused objects", Replay: p})
 			}
+		case same == 2 && class == "harness-race":
+			agg.errors = append(agg.errors, fmt.Sprintf("run %d: the race detector reported a race inside the harness itself (%s), replay kept at %s", s.run, first, p))
 		case same == 2:
+			// minimise in sub-processes (the failure kills the process that shows it)
+			sh := exec.Command(bin, "shrink", "-file", p)
+			sh.Env = workerEnv(env)
+			if out, err := sh.CombinedOutput(); err != nil {
+				fmt.Printf("note: minimising %s failed (%v): %s\n", p, err, lastLines(string(out), 2))
+			}
 			agg.violations = append(agg.violations, violation{Run: s.run, Seed: rp.Seed, Class: class, Detail: first, Replay: p})
 		case s.kind == "timeout":
 			// a slow run on a loaded machine: no verdict for this run, not an alarm and not a failure of the batch
@@ -208,6 +235,9 @@ func runCheck(cfg *checkCfg, tier string, seed uint64, runsOverride int, writeEv
 			fmt.Printf("note: run %d exceeded the %v backstop once but completed on re-execution (%d/2 timeouts)\n", s.run, timeout, same)
 		default:
 			agg.errors = append(agg.errors, fmt.Sprintf("run %d %s once (%s) but not on re-execution (%d/2): not reproducible, no verdict", s.run, s.kind, class, same))
+		}
+		if len(agg.violations) > nViol {
+			confirmed[key] = true
 		}
 	}
 
@@ -314,6 +344,7 @@ var expectedProbes = map[string][]string{
 		"fault.cache_bytes_corrupted", "fault.write_eio", "fault.write_enospc", "fault.write_short", "fault.mtime_collision", "fault.enumerated_prefixes", "probe.half_copied_font"},
 	"faultdisk": {"fault.byte_trunc", "fault.byte_flip", "fault.byte_set16", "fault.byte_set32", "fault.byte_zero", "fault.byte_swap", "fault.io_eio", "fault.io_eof", "fault.io_short",
 		"outcome.open-error", "outcome.opened", "check.pristine_equivalence"},
+	"schedsim": {"probe.switch_landed_inside_library_call", "plan.sweep", "plan.random", "op.glyphs", "op.fontq", "op.hbshape", "op.shape", "op.split", "op.wrap", "op.fmadd", "op.fmresolve", "op.vars"},
 	"fontmapsim": {"probe.repeat_lookup_cache_enabled", "probe.lookup_after_other_lookups", "probe.cache_eviction", "probe.add_after_lookups", "probe.system_fonts_used",
 		"answered_by_step_1", "answered_by_step_2", "answered_by_step_3", "answered_by_step_4", "answered_by_step_5"},
 }
@@ -460,4 +491,66 @@ func runReplay(path string) int {
 // (VERIF_MAX_VIOLATIONS overrides; used when surveying a tree with many defects).
 func maxViolations() int {
 	return int(envInt("VERIF_MAX_VIOLATIONS", 25))
+}
+
+// calibrateRaceWindow runs the canary (two tasks sharing one *font.Face, which the
+// documentation declares unsafe) in fresh processes with a growing amount of unrelated
+// library work between the conflicting accesses. The race detector must report the
+// canary at distance 0 — otherwise the baton has become a happens-before edge or the
+// detector is not active, and nothing this check says could be believed (exit 2). The
+// largest distance still reported, in ticks, is the detector's history window.
+func calibrateRaceWindow(bin string, env []string) uint64 {
+	dir := scratch()
+	run := func(gap int) (raced bool, ticks uint64) {
+		f := filepath.Join(dir, fmt.Sprintf("canary-%d.json", gap))
+		c := fmt.Sprintf(`{"engine":"schedsim","property":"C17","class":"canary","case":{"canary":true,"gap":%d,"fonts":[],"tasks":[],"plan":{}}}`, gap)
+		if err := os.WriteFile(f, []byte(c), 0o644); err != nil {
+			infra("%v", err)
+		}
+		cmd := exec.Command(bin, "replay", "-file", f)
+		cmd.Env = workerEnv(env)
+		var out, errb bytes.Buffer
+		cmd.Stdout, cmd.Stderr = &out, &errb
+		err := cmd.Run()
+		if strings.Contains(errb.String(), "WARNING: DATA RACE") {
+			class, _ := kernel.FatalClass(errb.String())
+			if !strings.Contains(class, "extentsCache") {
+				infra("canary: unexpected race report %s:\n%s", class, lastLines(errb.String(), 30))
+			}
+			return true, 0
+		}
+		if err != nil {
+			infra("canary (gap %d) failed: %v: %s", gap, err, lastLines(errb.String(), 5))
+		}
+		var l wline
+		for _, ln := range strings.Split(out.String(), "\n") {
+			if json.Unmarshal([]byte(ln), &l) == nil && l.T == "replay" && l.Outcome != nil {
+				return false, uint64(l.Outcome.Counters["ticks"])
+			}
+		}
+		infra("canary (gap %d): no result", gap)
+		return false, 0
+	}
+	if raced, _ := run(0); !raced {
+		infra("CANARY SILENT: two tasks sharing one *font.Face produced no race report; the scheduler's hand-off is visible to the race detector (or -race is not active). No verdict.")
+	}
+	last := 0
+	var perGap uint64
+	for _, gap := range []int{1, 2, 3, 4, 6, 8, 12, 16, 24, 32, 64} {
+		raced, ticks := run(gap)
+		if !raced {
+			perGap = ticks / uint64(gap)
+			break
+		}
+		last = gap
+	}
+	if perGap == 0 {
+		perGap = 68000
+	}
+	window := uint64(last) * perGap
+	if window == 0 {
+		window = perGap / 2
+	}
+	fmt.Printf("canary: race on the shared Face reported; detector history window calibrated at %d ticks (%d shaping calls of distance)\n", window, last)
+	return window
 }
